@@ -9,6 +9,7 @@ package main
 import (
 	"fmt"
 	"os"
+	"runtime/pprof"
 	"sort"
 	"strconv"
 	"strings"
@@ -75,6 +76,8 @@ func shardList(thorough bool) []string {
 	return out
 }
 
+var debugAllowed = os.Getenv("C08_DEBUG_ALLOWED") != ""
+
 const nF3Siblings = 6 // plain, optional, default, optional=dep, optional=!dep, optional=dep+range
 
 var sources = []string{"form", "path", "header", "json"}
@@ -85,6 +88,7 @@ type runner struct {
 	shard    string
 	seenKey  map[string]bool // coarse finding keys already classified in this worker
 	stopped  bool
+	sampling bool // this shard contributes one sample case to the evidence file
 	nCases   int64
 	nTypes   int64
 	outcomes [nOutcomeClasses]int64
@@ -122,9 +126,12 @@ func (x *runner) evalType(entry string, fs []Field, fams [][]Tok) {
 		} else {
 			rej++
 		}
+		if debugAllowed && fd == nil && (oc == ocAcceptedAllowed || oc == ocRejectedAllowed) {
+			fmt.Printf("ALLOWED %s %s | %s | %s\n", map[int]string{ocAcceptedAllowed: "acc", ocRejectedAllowed: "rej"}[oc], entry, describeType(fs), inputText(c))
+		}
 		if fd != nil {
 			x.report(c, fd)
-		} else if x.nCases%200003 == 1 && x.r.WantSample() {
+		} else if x.sampling && x.nCases == 5000 {
 			s := cloneCase(c)
 			s.fill(nil)
 			x.r.Sample(map[string]any{"entry": s.Entry, "type": s.Type, "input": s.Input, "expected": s.Expected})
@@ -356,6 +363,10 @@ func main() {
 		replay(cfg, r)
 		return
 	}
+	if pf := os.Getenv("C08_CPUPROFILE"); pf != "" && cfg.Shard != "" {
+		f, _ := os.Create(pf)
+		pprof.StartCPUProfile(f)
+	}
 	if cfg.BudgetS == 0 && cfg.Thorough() {
 		cfg.BudgetS = 1020 // soft box: 17 min of enumeration, leaves room for build and merge within 20 min
 	}
@@ -383,16 +394,22 @@ func main() {
 	vlib.RunShards(r, names, func(name string, r *vlib.Report) {
 		s := parseShard(name)
 		x := &runner{r: r, cfg: cfg, shard: name, seenKey: map[string]bool{}}
+		x.sampling = s.part == 0 && (s.group == "f2" || s.group == "h2" || s.group == "f3")
 		x.runShard(s)
 		x.finishShard(s)
+		pprof.StopCPUProfile()
 	})
 	sortViolations(r)
+	sort.SliceStable(r.Samples, func(i, j int) bool { return fmt.Sprint(r.Samples[i]) < fmt.Sprint(r.Samples[j]) })
 	summariseCuts(r)
 	r.Finish()
 }
 
 // sortViolations makes the order of reported classes independent of shard completion order.
 func sortViolations(r *vlib.Report) {
+	for i := range r.Violations {
+		r.Violations[i].Shard = "" // which shard met a class first depends on scheduling; the replay does not need it
+	}
 	sort.SliceStable(r.Violations, func(i, j int) bool { return r.Violations[i].Class < r.Violations[j].Class })
 }
 
